@@ -52,6 +52,16 @@ NEEDS = {
  'C16c-empty-cluster-filled-after-final': 'a final assignment that leaves a mean nobody is nearest to (duplicates, k close to the number of distinct series, unlucky initialisation)',
  'C18c-reset-mask-windowdiff-merged': 'LocalConcurrences on the full matrix + window + series 2 longer than series 1 + the best cells in the part of the band that exists only because of the length difference',
  'C20c-dba-loop-asarray-in-place': 'dba_loop(use_c=True, thr=None, keep_averages=False) with a float64 ndarray / array.array as initial average or first series',
+ 'C02c-window-written-back-to-shared-settings': 'C distance matrix with window None/0 on series of different lengths: an early short pair narrows the band of later pairs (state left in the shared settings struct)',
+ 'C06c-matrix-length-negative-rows': 'triangular block whose row range runs past its column end (re > ce)',
+ 'C07c-static-band-buffer': 'OpenMP matrix + 1-D series + window set (static scratch rows shared by the threads) + >= 2 threads interleaving',
+ 'C09c-python-lbkeogh-imin-diff-max': 'Python lb_keogh + len(s1) > len(s2) + explicit window >= 2',
+ 'C10c-c-distance-swaps-series-not-psi': 'C distance + len(s1) < len(s2) + psi 4-tuple whose series-1 and series-2 entries differ',
+ 'C11c-ndim-wrapper-direct-without-window': "dtw_ndim.warping_paths(use_c=True) with a window for which the compact width equals the full width (2*window == l1 for l1 <= l2): wrong matrix, correct distance",
+ 'C14c-lb-plus-linear-penalty': 'use_lb + penalty > 0 + a candidate whose length differs from the query + k-th best threshold between its distance and the inflated bound',
+ 'C15c-stop-strictly-below-maxdist': 'finite max_dist exactly equal to the distance of the closest remaining prototype pair',
+ 'C17c-dp-shortcut-rewarded-pair': 'substitution dictionary in which a mismatching pair is still rewarded (a gap can beat the forced diagonal)',
+ 'C19c-gaussian-explicit-r-overridden-by-quantile': "distance_to_similarity(method='gaussian') with explicit r AND cover_quantile",
  'C20b-verify-contiguous-fortran': 'n-dim series as Fortran-ordered/transposed 2-D array + C engine pairwise entry point',
 }
 STRENGTHENED = {
@@ -67,6 +77,8 @@ STRENGTHENED = {
  'C13c-maxlength-on-path-length': 'missed (C13 judged only what was yielded); caught after adding the completeness rule: an end that no stated rule can exclude must be yielded',
  'C18c-reset-mask-windowdiff-merged': 'missed (validity monitor only); caught after adding "the first match after a (re)start is traced from the maximum of the matrix" and two pairs whose best cells lie in the widened part of the band',
  'C20c-dba-loop-asarray-in-place': 'caught by C12 from the start; C20 itself missed it until the option variants of dba_loop (thr=None, explicit c, keep_averages, mask) were added to its catalogue - which also exposed F51. patch.diff was rebased onto F51 (original in patch.orig.diff)',
+ 'C02c-window-written-back-to-shared-settings': 'caught by C06 from the start; C02 itself missed it (its matrix route held only the pair) until the pair became the LAST pair of a 4-series collection',
+ 'C11c-ndim-wrapper-direct-without-window': 'caught by C04 from the start; C11 itself compared only value and shape of the n-dim cost matrix until the cell-wise comparison was added',
  'C15-persisted-maxdist-option': 'C15 was extended with real-distance fit histories after reading this seed and before its first run',
  'C19-squash-keepsign-base': 'C19 was extended with base=10 after reading this seed and before its first run',
  'C03b-pruning-tightest-bound-unsquared': 'C03 was extended with use_pruning+max_dist after reading this seed and before its first run',
